@@ -98,6 +98,29 @@ func attrType(t sv.STok) string {
 	return "(none)"
 }
 
+// methods: every way of writing (EncodeToken, Copy, Encode of a token reader,
+// Encode of a WriterTo, EncodeElement) x every shape of what is written x
+// request type x payload.
+func (x *runner) methods(r *hx.Rand) {
+	for _, via := range sv.Vias {
+		for _, kind := range sv.WriteKinds {
+			for _, typ := range []string{"get", "set", "result"} {
+				for _, pl := range []string{"", "<query xmlns='urn:example:q'/>"} {
+					iq := sv.GenIQ(r, typ, "x", true, "a@example.net/r", "", pl)
+					w := sv.W(sv.GenWrite(kind, "x")...)
+					w.Via = via
+					ns := "jabber:client"
+					if (len(kind)+len(via)+len(pl))%4 == 0 {
+						ns = "jabber:server"
+					}
+					x.one(sv.Spec{NS: ns, Own: sv.OwnFull, Script: iq.String() + "<a/></stream:stream>",
+						Progs: [][]sv.Op{{{K: "read", N: 1}, w}, nil}, Label: "exh/via-" + via + "/" + kind}, "via/"+via)
+				}
+			}
+		}
+	}
+}
+
 // ---- outstanding requests ----
 
 var waiterProgs = map[string][]sv.Op{
@@ -234,7 +257,7 @@ func (x *runner) exhaustive(r *hx.Rand, thorough bool) {
 		id  string
 		has bool
 	}{{"x", true}, {"", false}}
-	froms := []string{"", "a@example.net/r", sv.OwnBare, "@@", "example.net"}
+	froms := []string{"", "a@example.net/r", sv.OwnBare, "example.net", "romeo@@example.org/orchard"}
 	payloads := []string{"", "<query xmlns='urn:example:q'/>", "text"}
 	if thorough {
 		types = append(types, "foo")
@@ -403,6 +426,7 @@ func main() {
 		}
 		x.exhaustive(r, o.Thorough() || o.Search)
 		x.pending(r, o.Thorough() || o.Search)
+		x.methods(r)
 		n := 1500
 		if o.Thorough() {
 			n = 12000
@@ -415,7 +439,7 @@ func main() {
 		}
 	}
 	res.Rule = "inputs: corpus; exhaustive small scope (IQ type x id x from x payload x handler behaviour, with and without the " +
-		"multiplexer and registered handlers); one outstanding SendIQ/SendMessage/SendPresence call (live or with a cancelled context) x incoming " +
+		"multiplexer and registered handlers); every way of writing (EncodeToken, Copy, Encode of a token reader / of a WriterTo, EncodeElement) x 16 shapes of output x request type x payload; one outstanding SendIQ/SendMessage/SendPresence call (live or with a cancelled context) x incoming " +
 		"element (type, name, colliding or other id, payload) sent twice; seeded random scripts of 1-4 top-level items (IQs with boundary-biased type/id/from/to/" +
 		"payload/name space/qualified attributes, other stanzas, other elements, keep-alives, stream-level constructs, malformed XML) " +
 		"with a drawn handler program per element, a third of them with 1-2 outstanding calls whose ids collide with ids of the script; distinct = hash of the case; non-trivial = at least one handler invocation on an iq element"
@@ -437,6 +461,14 @@ var corpus = []sv.Spec{
 	{NS: "jabber:server", Own: "example.net", Script: "<iq type='set' id='x'/><iq type='error' id='y'><error type='cancel'/></iq><iq type='result' id='x'>t</iq></stream:stream>",
 		Pend: []sv.PendSpec{{ID: "x", Kind: "iq", Space: "jabber:server", Type: "set", Cancel: true, Prog: []sv.Op{{K: "read", N: 1}}},
 			{ID: "y", Kind: "iq", Type: "get", Prog: []sv.Op{{K: "read", N: 40, Stop: true}, {K: "read", N: 2}}}}, Label: "corpus/colliding-request-cancelled-waiter"},
+	// the handler replies through EncodeElement (seeded change C07-m9: that method bypassed the reply detector)
+	{NS: "jabber:client", Own: sv.OwnFull, Script: "<iq type='get' id='x' from='a@example.net/r'><q xmlns='urn:example:q'/></iq></stream:stream>",
+		Progs: [][]sv.Op{{{K: "readret", N: 40}, {K: "write", Via: "element", Toks: sv.GenWrite("result", "x")}}}, Label: "corpus/reply-via-encodeelement"},
+	{NS: "jabber:client", Own: sv.OwnFull, Script: "<iq type='set' id='x'/></stream:stream>",
+		Progs: [][]sv.Op{{{K: "write", Via: "encode", Toks: sv.GenWrite("error", "x")}}}, Label: "corpus/reply-via-encode"},
+	// the sender's address is not a valid JID: no reply can be addressed, the stream ends with an error
+	{NS: "jabber:client", Own: sv.OwnFull, Script: "<iq type='get' id='x' from='romeo@@example.org/orchard'/><iq type='get' id='y'/></stream:stream>", Label: "corpus/invalid-from"},
+	{NS: "jabber:client", Own: sv.OwnFull, Script: "<iq type='set' id='x' from='example.org/'><q xmlns='urn:example:q'/></iq><a/></stream:stream>", Label: "corpus/invalid-from-2"},
 	// the sender is the server itself (the domain of our address): the reply still goes to it
 	{NS: "jabber:client", Own: sv.OwnFull, Script: "<iq type='get' id='x' from='example.net'><ping xmlns='urn:xmpp:ping'/></iq><iq type='set' id='y' from='me@example.net/res'/><iq type='get' id='z' from='me@example.net'/></stream:stream>", Label: "corpus/from-own-domain"},
 	// multiplexer: responses nobody waits for are never answered, whatever their payload
